@@ -77,6 +77,22 @@ class NoTransform(_Core):
         return self._train(X, y, sample_weight)
 
 
+class Composite(BaseEstimator):
+    """a fitted composite (a Pipeline, a FeatureUnion): its state lives in its parts, the object itself owns no
+    public attribute whose name ends with an underscore"""
+
+    def __init__(self, a=1):
+        self.a = a
+        self.part = FitXYW(a)
+
+    def fit(self, X, y=None, sample_weight=None):
+        self.part.fit(X, y, sample_weight)
+        return self
+
+    def transform(self, X):
+        return self.part.transform(X)
+
+
 SIGS = {"xyw": FitXYW, "xy": FitXY, "xw": FitXW, "x": FitX}
 
 
@@ -258,6 +274,29 @@ def sc_transfer(cfg):
     return scenario
 
 
+def sc_transfer_composite(cfg):
+    """a frozen TransferTransformer around an already fitted composite estimator (copy_estimator=False: it wraps
+    the object itself) never trains it, whatever data fit is given"""
+    TT = loader.load("mlmodel.transfer_transformer").TransferTransformer
+    n = 2
+
+    def scenario(C):
+        a = C.int("a")
+        inner = Composite(a)
+        X0, y0, w0 = _data(C, n, "z")
+        inner.fit(X0, y0)
+        coef0 = inner.part.coef_
+        est = TT(inner, method="transform", copy_estimator=False, trainable=False)
+        X, y, w = _data(C, n, "t")
+        est.fit(X, y)
+        C.true(est.estimator_ is inner, "no-copy:wraps-the-object-itself")
+        C.true(inner.part.n_fit_ == 1, "not-trainable:fit-never-calls-the-wrapped-fit", detail=inner.part.n_fit_)
+        Xq, _, _ = _data(C, n, "q")
+        _cells(C, est.transform(Xq), ref("transform", coef0, Xq), "transform==wrapped-estimator's-output")
+
+    return scenario
+
+
 class InPlace(BaseEstimator):
     """a model that, like SGD/partial_fit learners, updates its fitted arrays IN PLACE when trained again"""
 
@@ -298,7 +337,7 @@ def sc_transfer_inplace(cfg):
     return scenario
 
 
-SCEN = dict(learner=sc_learner, stacking=sc_stacking, transfer=sc_transfer, transfer_inplace=sc_transfer_inplace)
+SCEN = dict(learner=sc_learner, stacking=sc_stacking, transfer=sc_transfer, transfer_inplace=sc_transfer_inplace, transfer_composite=sc_transfer_composite)
 
 
 def run_config(cfg):
@@ -326,6 +365,7 @@ def configs(tier):
         out.append(dict(kind="stacking", N=2, rows=2, wrap=wrap, method=0, weighted=True))
     for trainable in (False, True):
         out.append(dict(kind="transfer_inplace", trainable=trainable))
+    out.append(dict(kind="transfer_composite"))
     for sig in SIGS:
         for copy in (True, False):
             for trainable in (False, True):
